@@ -5,12 +5,7 @@ HERE = os.path.dirname(os.path.dirname(os.path.abspath(__file__)))
 props = [json.loads(l) for l in open(os.path.join(HERE, "properties.jsonl"))]
 ids = [p["id"] for p in props]
 
-# id -> (technique, level text, level note, design ref)
-CLAIMED = {
- "C07": ("Lean 4 theorems about Num.encode/Num.decode (omega case analysis) + exhaustive/block-CRC correspondence with encode_number/decode_number",
-         "Full proof: decode∘encode = id, wire-safety, k-byte prefix property, decode = positional formula for all byte strings, injectivity — for every integer of the EO int range; the model is tied to the working tree exhaustively for 1–3 byte numbers (thorough) and on boundaries/random beyond.",
-         "Lean kernel; axioms ⊆ {propext, Classical.choice, Quot.sound}; hand-written model tied by differential testing; CPython int/bytes semantics modelled", "§3 C07"),
-}
+CLAIMED = {k: (v["technique"], v["text"], v["note"], v["ref"]) for k, v in json.load(open(os.path.join(HERE, "tools", "claims.json"))).items()}
 NOT_YET = "machinery for this property is not built yet in this revision (planned, see DESIGN.md §6); not claimed"
 
 checks = []
